@@ -85,6 +85,53 @@ fn json_u64(s: &str, key: &str) -> Option<u64> {
     rest[..end].parse().ok()
 }
 
+/// C10 / C03 "read by an independent XML parser and by flute's receiver": an FDT instance WRITTEN FROM THE RFC TEXT (RFC 6726 section 3.4.2 and
+/// 7.1: attribute names exactly as in the schema, 3GPP / optional ones left out), not produced by flute, must be read by the real
+/// FdtInstance::parse into exactly these values - the (de)serialisation names live in serde attributes, outside any contract.
+fn check_rfc_names() -> u32 {
+    let xml = "<?xml version=\"1.0\" encoding=\"UTF-8\"?>\n<FDT-Instance xmlns=\"urn:IETF:metadata:2005:FLUTE:FDT\" Expires=\"4000000000\" Complete=\"true\" \
+Content-Type=\"text/x-instance\" Content-Encoding=\"gzip\" FEC-OTI-FEC-Encoding-ID=\"0\" FEC-OTI-FEC-Instance-ID=\"0\" FEC-OTI-Maximum-Source-Block-Length=\"64\" \
+FEC-OTI-Encoding-Symbol-Length=\"1400\" FEC-OTI-Max-Number-of-Encoding-Symbols=\"64\">\n  <File Content-Location=\"file:///a.bin\" TOI=\"340282366920938463463374607431768211455\" \
+Content-Length=\"123\" Transfer-Length=\"77\" Content-Type=\"application/x-test\" Content-Encoding=\"deflate\" Content-MD5=\"1B2M2Y8AsgTpgAmY7PhCfg==\" \
+FEC-OTI-FEC-Encoding-ID=\"5\" FEC-OTI-FEC-Instance-ID=\"0\" FEC-OTI-Maximum-Source-Block-Length=\"32\" FEC-OTI-Encoding-Symbol-Length=\"100\" \
+FEC-OTI-Max-Number-of-Encoding-Symbols=\"40\"/>\n</FDT-Instance>";
+    let mut bad = 0;
+    let mut fail = |what: &str, observed: String, expected: &str| {
+        wit("parse", format!("{{\"case\":\"rfc_names\",\"attribute\":\"{}\"}}", what), observed, expected);
+        bad += 1;
+    };
+    let fdt = match FdtInstance::parse(xml.as_bytes()) {
+        Ok(f) => f,
+        Err(e) => { fail("document", format!("parse error {:?}", e), "an RFC 6726 FDT instance is parsed"); return bad; }
+    };
+    if fdt.expires != "4000000000" { fail("Expires", format!("{:?}", fdt.expires), "attribute Expires of the instance is read as written"); }
+    if fdt.complete != Some(true) { fail("Complete", format!("{:?}", fdt.complete), "attribute Complete of the instance is read as written"); }
+    if fdt.content_type.as_deref() != Some("text/x-instance") { fail("Content-Type", format!("{:?}", fdt.content_type), "attribute Content-Type of the instance is read as written"); }
+    if fdt.content_encoding.as_deref() != Some("gzip") { fail("Content-Encoding", format!("{:?}", fdt.content_encoding), "attribute Content-Encoding of the instance is read as written"); }
+    if fdt.fec_oti_maximum_source_block_length != Some(64) || fdt.fec_oti_encoding_symbol_length != Some(1400) || fdt.fec_oti_fec_encoding_id != Some(0)
+        || fdt.fec_oti_max_number_of_encoding_symbols != Some(64) {
+        fail("FEC-OTI-*", format!("{:?} {:?} {:?} {:?}", fdt.fec_oti_fec_encoding_id, fdt.fec_oti_maximum_source_block_length, fdt.fec_oti_encoding_symbol_length, fdt.fec_oti_max_number_of_encoding_symbols),
+            "the FEC-OTI attributes of the instance are read as written");
+    }
+    let files = fdt.file.clone().unwrap_or_default();
+    if files.len() != 1 { fail("File", format!("{} File elements", files.len()), "one File element is read"); return bad; }
+    let f = &files[0];
+    if f.content_location != "file:///a.bin" { fail("Content-Location", format!("{:?}", f.content_location), "attribute Content-Location of the File is read as written"); }
+    if f.toi != "340282366920938463463374607431768211455" { fail("TOI", format!("{:?}", f.toi), "attribute TOI of the File is read as written"); }
+    if f.content_length != Some(123) { fail("Content-Length", format!("{:?}", f.content_length), "attribute Content-Length of the File is read as written"); }
+    if f.transfer_length != Some(77) { fail("Transfer-Length", format!("{:?}", f.transfer_length), "attribute Transfer-Length of the File is read as written"); }
+    if f.content_type.as_deref() != Some("application/x-test") { fail("Content-Type", format!("{:?}", f.content_type), "attribute Content-Type of the File is read as written"); }
+    if f.content_encoding.as_deref() != Some("deflate") { fail("Content-Encoding", format!("{:?}", f.content_encoding), "attribute Content-Encoding of the File is read as written"); }
+    if f.content_md5.as_deref() != Some("1B2M2Y8AsgTpgAmY7PhCfg==") { fail("Content-MD5", format!("{:?}", f.content_md5), "attribute Content-MD5 of the File is read as written"); }
+    if f.fec_oti_fec_encoding_id != Some(5) || f.fec_oti_maximum_source_block_length != Some(32) || f.fec_oti_encoding_symbol_length != Some(100)
+        || f.fec_oti_max_number_of_encoding_symbols != Some(40) {
+        fail("File FEC-OTI-*", format!("{:?} {:?} {:?} {:?}", f.fec_oti_fec_encoding_id, f.fec_oti_maximum_source_block_length, f.fec_oti_encoding_symbol_length, f.fec_oti_max_number_of_encoding_symbols),
+            "the FEC-OTI attributes of the File are read as written");
+    }
+    if f.get_transfer_length() != 77 { fail("get_transfer_length", format!("{}", f.get_transfer_length()), "the transfer length of the entry is its Transfer-Length attribute"); }
+    bad
+}
+
 #[test]
 fn search() {
     std::panic::set_hook(Box::new(|_| {}));
@@ -122,6 +169,8 @@ fn search() {
             }
         }
     }
+    evals += 1;
+    found += check_rfc_names();
     println!("WSTATS {{\"evaluations\":{},\"mode\":\"search\"}}", evals);
     assert!(found == 0, "witness found");
 }
